@@ -61,7 +61,7 @@ func init() {
 					continue
 				}
 				den, _ := decCoinOf(argT(fa, match, 2))
-				ok := argT(fa, match, 1).Eq(v) && argT(fa, match, 4).Name == "true" && den.Eq(mkField(argT(fa, call, 3), "Denom"))
+				ok := argT(fa, match, 1).Eq(v) && e.sharesDirection(fa, match) == "true" && den.Eq(mkField(argT(fa, call, 3), "Denom"))
 				r.Check(ok, fk, construct, "updateValidatorShares(same validator, [coin.Denom, newShares], .., add)", "the paired updateValidatorShares call uses another validator, denom or direction", r.P(match))
 				if trail := fa.MustFollow(call, []ssa.Instruction{match}); trail != nil {
 					r.Bad(fk, "delegation grown => validator total grown ("+v.String()+")", "a success path persists the larger delegation without updating the validator's total", trail, r.P(call))
@@ -112,7 +112,7 @@ func init() {
 					continue
 				}
 				den, _ := decCoinOf(argT(fa, match, 2))
-				ok := argT(fa, match, 4).Name == "false" && den.Eq(mkField(argT(fa, call, 3), "Denom"))
+				ok := e.sharesDirection(fa, match) == "false" && den.Eq(mkField(argT(fa, call, 3), "Denom"))
 				r.Check(ok, fk, construct, "updateValidatorShares(same validator, [coin.Denom, shares], .., remove)", "the paired call uses another denom or adds instead of removing", r.P(match))
 				if trail := fa.MustFollow(call, []ssa.Instruction{match}); trail != nil {
 					r.Bad(fk, "delegation reduced => validator total reduced ("+v.String()+")", "a success path persists the smaller delegation without updating the validator's total", trail, r.P(call))
@@ -177,7 +177,11 @@ func init() {
 							ok = false
 						}
 					}
-					ok = ok && fa.HasGuard(add[0], func(g Guard) bool { return g.Pos && g.Cond.String() == "$isAdd" }) && fa.HasGuard(red[0], func(g Guard) bool { return !g.Pos && g.Cond.String() == "$isAdd" })
+					// one test of the direction parameter (a bool, or a named constant compared with ==/!=) selects between
+					// the two: AddShares on one outcome, ReduceShares on the other
+					ga, okA := directionGuard(fa, add[0])
+					gr, okR := directionGuard(fa, red[0])
+					ok = ok && okA && okR && ga.Cond.String() == gr.Cond.String() && ga.Pos != gr.Pos
 				}
 				r.Check(ok, FuncKey(fn), "add/remove dispatch", "isAdd -> AddShares(delegationShares, validatorShares), else ReduceShares(same)", "updateValidatorShares does not pass its two share arguments straight to AddShares/ReduceShares under isAdd", e.Pos(fn.Pos()))
 				sv := CallsTo(fn, "keeper.Keeper.SetValidator")
@@ -311,7 +315,7 @@ func init() {
 				var match ssa.CallInstruction
 				for _, u := range CallsTo(fn, "keeper.Keeper.updateValidatorShares") {
 					_, amt := decCoinOf(argT(fa, u, 3))
-					if amt != nil && amt.Eq(delta) && argT(fa, u, 4).Name == isAdd {
+					if amt != nil && amt.Eq(delta) && e.sharesDirection(fa, u) == isAdd {
 						match = u
 					}
 				}
@@ -332,7 +336,7 @@ func init() {
 					_, a0 := decCoinOf(argT(fa, us[0], 3))
 					_, a1 := decCoinOf(argT(fa, us[1], 3))
 					ok = a0 != nil && a1 != nil && a0.Eq(a1) && a0.IsCall("types.GetValidatorShares") &&
-						argT(fa, us[0], 4).Name == "false" && argT(fa, us[1], 4).Name == "true" &&
+						e.sharesDirection(fa, us[0]) == "false" && e.sharesDirection(fa, us[1]) == "true" &&
 						argT(fa, us[0], 1).String() == "$srcVal" && argT(fa, us[1], 1).String() == "$dstVal"
 				}
 				r.Check(ok, k, "validator shares moved unchanged from source to destination", "updateValidatorShares(src, .., V, remove) and (dst, .., V, add) with one term V", "the validator-share amounts removed from the source and added to the destination differ, or the directions/validators are wrong", e.Pos(fn.Pos()))
@@ -481,4 +485,70 @@ func loadsParamSlot(v ssa.Value, name string) bool {
 		}
 	}
 	return false
+}
+
+// directionGuard: the guard of call c (inside updateValidatorShares) that tests only the function's direction
+// parameter - the last parameter - as a boolean or against a constant.
+func directionGuard(fa *FuncAnalysis, c ssa.Instruction) (Guard, bool) {
+	ps := fa.Fn.Params
+	if len(ps) == 0 {
+		return Guard{}, false
+	}
+	pname := reviewedParamName(ps[len(ps)-1])
+	isDir := func(t *Term) bool { return t.Op == "param" && t.Name == pname }
+	for _, g := range fa.GuardsOf(c) {
+		switch {
+		case isDir(g.Cond):
+			return g, true
+		case g.Cond.Op == "binop" && (g.Cond.Name == "==" || g.Cond.Name == "!=") && len(g.Cond.Args) == 2:
+			a, b := g.Cond.Args[0], g.Cond.Args[1]
+			if (isDir(a) && b.Op == "const") || (isDir(b) && a.Op == "const") {
+				return g, true
+			}
+		}
+	}
+	return Guard{}, false
+}
+
+// sharesDirection: "true" when the call of updateValidatorShares adds shares, "false" when it removes them, "" when
+// that cannot be told.  The direction argument is a constant at every call site; it is evaluated against the test that
+// guards AddShares inside the callee (a bool flag, or a named constant compared with == / !=).
+func (e *Engine) sharesDirection(fa *FuncAnalysis, c ssa.CallInstruction) string {
+	args := CallArgs(c.Common())
+	if len(args) == 0 {
+		return ""
+	}
+	at := fa.Term(args[len(args)-1])
+	if at.Op != "const" {
+		return ""
+	}
+	if at.Name == "true" || at.Name == "false" {
+		return at.Name
+	}
+	callee := Devirt(c.Common())
+	if callee == nil || callee.Blocks == nil {
+		return ""
+	}
+	cfa := e.FA(callee)
+	adds := CallsTo(callee, "types.AllianceValidator.AddShares")
+	if len(adds) != 1 {
+		return ""
+	}
+	g, ok := directionGuard(cfa, adds[0])
+	if !ok || g.Cond.Op != "binop" {
+		return ""
+	}
+	k := g.Cond.Args[1]
+	if k.Op != "const" {
+		k = g.Cond.Args[0]
+	}
+	eq := at.Name == k.Name
+	holds := eq
+	if g.Cond.Name == "!=" {
+		holds = !eq
+	}
+	if holds == g.Pos {
+		return "true"
+	}
+	return "false"
 }
